@@ -127,3 +127,24 @@ func TestC01Soup(t *testing.T) {
 		}
 	})
 }
+
+// FuzzC01Soup is the native coverage-guided target of C01's thorough tier: the fuzzer's bytes drive the
+// same generator as TestC01Soup (rapid.MakeFuzz), coverage feedback comes from the emulator's decoder.
+func FuzzC01Soup(f *testing.F) {
+	rig := newLockRig()
+	f.Add([]byte{0})
+	f.Add([]byte{1, 2, 3, 4, 5, 6, 7, 8, 9, 10, 11, 12, 13, 14, 15, 16, 17, 18, 19, 20, 21, 22, 23, 24, 25, 26, 27, 28, 29, 30, 31, 32})
+	f.Fuzz(rapid.MakeFuzz(func(t *rapid.T) {
+		c := genSoup(t, 24, 64)
+		if rapid.IntRange(0, 2).Draw(t, "intr?") == 0 {
+			genSoupIntr(t, &c, 2)
+		}
+		msg, _, _, _ := soupLockstep(rig, &c, stepKinds["C01"])
+		if msg != "" {
+			if env.OutDir != "" {
+				violation(t, "C01", "soup", c, "reference model, every Step", msg)
+			}
+			t.Fatalf("VIOLATION-CANDIDATE C01 %s", msg)
+		}
+	}))
+}
